@@ -37,6 +37,8 @@ PROPS = {
             {"pkg": "interpreter", "name": "VH_C05_Opcode", "quick": {"params": {"D": 2, "K": 1, "BIGTOP": 9, "OPLO": 121, "OPHI": 128, "U": 4}}, "thorough": {"params": {"D": 3, "K": 1, "BIGTOP": 9, "OPLO": 121, "OPHI": 128, "U": 4}}},
             {"pkg": "interpreter", "name": "VH_C05_Opcode", "quick": {"params": {"D": 2, "K": 2, "BIGTOP": 9, "OPLO": 152, "OPHI": 153, "U": 4}}, "thorough": {"params": {"D": 3, "K": 3, "BIGTOP": 10, "OPLO": 152, "OPHI": 153, "U": 4}}},
             {"pkg": "interpreter", "name": "VH_C05_Opcode", "thorough_only": True, "thorough": {"params": {"D": 3, "K": 2, "X": 1, "ALIAS": 1, "U": 6, "KM": 1, "OPLO": 126, "OPHI": 165}}},
+            {"pkg": "interpreter", "name": "VH_C05_Opcode", "quick": {"params": {"D": 1, "K": 1, "PUSHB": 1, "OPLO": 76, "OPHI": 78, "U": 4}}, "thorough": {"params": {"D": 2, "K": 1, "PUSHB": 1, "OPLO": 76, "OPHI": 78, "U": 4}}},
+            {"pkg": "interpreter", "name": "VH_C05_Locktime", "quick": {"params": {"OPLO": 177, "OPHI": 178}}, "thorough": {"params": {"OPLO": 177, "OPHI": 178}}},
             {"pkg": "interpreter", "name": "VH_C05_Control", "quick": {"params": {"D": 1, "K": 1, "C": 2, "U": 4}}, "thorough": {"params": {"D": 2, "K": 1, "C": 3, "U": 4}}},
         ],
         "validate_tests": [{"pkg": "interpreter", "run": "TestVerifRefScripts"}],
@@ -61,8 +63,8 @@ PROPS = {
     },
     "C19": {
         "harnesses": [
-            {"pkg": "interpreter", "name": "VH_C19_Step", "quick": {"params": {"D": 2, "K": 1, "C": 1, "U": 4}}, "thorough": {"params": {"D": 3, "K": 2, "C": 2, "U": 6}}},
-            {"pkg": "interpreter", "name": "VH_C19_Execute", "quick": {"params": {"L": 1}}, "thorough": {"params": {"L": 2}}},
+            {"pkg": "interpreter", "name": "VH_C19_Step", "quick": {"params": {"D": 2, "K": 1, "C": 1, "U": 4}}, "thorough": {"params": {"D": 3, "K": 1, "C": 2, "U": 4}}},
+            {"pkg": "interpreter", "name": "VH_C19_Execute", "quick": {"params": {"L": 1}}, "thorough": {"params": {"L": 1}}},
             {"pkg": "interpreter", "name": "VH_C19_P2SH", "quick": {"params": {"R": 1}}, "thorough": {"params": {"R": 1}}},
         ],
         "assumptions": [],
@@ -85,7 +87,7 @@ PROPS = {
     },
     "C11": {
         "harnesses": [
-            {"pkg": "bt", "name": "VH_C11_Accounting", "opts": {"int": True}, "quick": {"params": {"IN": 1, "OUT": 2, "S": 2, "DEN": 0}}, "thorough": {"params": {"IN": 2, "OUT": 3, "S": 3, "DEN": 1}}},
+            {"pkg": "bt", "name": "VH_C11_Accounting", "opts": {"int": True}, "quick": {"params": {"IN": 1, "OUT": 2, "S": 2, "DEN": 0}}, "thorough": {"params": {"IN": 2, "OUT": 3, "S": 2, "DEN": 1}}},
             {"pkg": "bt", "name": "VH_C11_Estimate", "opts": {"int": True}, "quick": {"params": {"IN": 2, "SIGVAR": 2, "DEN": 0}}, "thorough": {"params": {"IN": 3, "SIGVAR": 40, "DEN": 1}}},
         ],
         "assumptions": [],
@@ -130,23 +132,26 @@ PROPS = {
     "C07": {
         "harnesses": [
             {"pkg": "interpreter", "name": "VH_C07_Step", "quick": {"params": {"D": 3, "K": 2, "A": 1, "C": 0, "TX": 0, "U": 6}}, "thorough": {"params": {"D": 6, "K": 3, "A": 1, "C": 0, "TX": 0, "U": 8}}},
-            {"pkg": "interpreter", "name": "VH_C07_Step", "quick": {"params": {"D": 2, "K": 1, "BIGTOP": 9, "OPLO": 121, "OPHI": 128, "U": 4}}, "thorough": {"params": {"D": 3, "K": 1, "BIGTOP": 9, "OPLO": 121, "OPHI": 165, "U": 4}}},
+            {"pkg": "interpreter", "name": "VH_C07_Step", "quick": {"params": {"D": 2, "K": 1, "BIGTOP": 9, "OPLO": 121, "OPHI": 128, "U": 4}}, "thorough": {"params": {"D": 3, "K": 1, "BIGTOP": 9, "OPLO": 121, "OPHI": 128, "U": 4}}},
+            {"pkg": "interpreter", "name": "VH_C07_Step", "quick": {"params": {"D": 2, "K": 2, "BIGTOP": 9, "OPLO": 152, "OPHI": 153, "U": 4}}, "thorough": {"params": {"D": 3, "K": 3, "BIGTOP": 10, "OPLO": 152, "OPHI": 153, "U": 4}}},
             {"pkg": "interpreter", "name": "VH_C07_Step", "quick": {"params": {"D": 1, "K": 1, "UNLOCK": 1, "U": 4}}, "thorough": {"params": {"D": 2, "K": 1, "UNLOCK": 1, "U": 4}}},
             {"pkg": "interpreter", "name": "VH_C07_Execute"},
             {"pkg": "interpreter", "name": "VH_C07_ExecuteScripts", "quick": {"params": {"L": 1, "LU": 0}}, "thorough": {"params": {"L": 2, "LU": 0}}},
+            # the signature opcodes with arbitrary signature / key bytes: only the faults count here (the verdict is C06's subject)
+            {"pkg": "interpreter", "name": "VH_C06_Encoding", "faults_only": True, "quick": {"params": {"S": 0, "ERA": 0, "TRAIL": 0, "SLN": 2}}, "thorough": {"params": {"S": 0, "ERA": 0, "TRAIL": 0, "SLN": 6}}},
         ],
         "assumptions": [],
     },
     "C02": {
         "harnesses": [
-            {"pkg": "bt", "name": "VH_C02_Preimage", "quick": {"params": {"IN": 2, "OUT": 2, "S": 1}}, "thorough": {"params": {"IN": 3, "OUT": 3, "S": 2}}},
+            {"pkg": "bt", "name": "VH_C02_Preimage", "quick": {"params": {"IN": 2, "OUT": 2, "S": 1}}, "thorough": {"params": {"IN": 3, "OUT": 3, "S": 1}}},
         ],
         "validate_tests": [{"pkg": "bt", "run": "TestVerifRefValidate"}],
         "assumptions": [],
     },
     "C03": {
         "harnesses": [
-            {"pkg": "bt", "name": "VH_C03_Legacy", "quick": {"params": {"IN": 2, "OUT": 2, "S": 1}}, "thorough": {"params": {"IN": 3, "OUT": 3, "S": 2}}},
+            {"pkg": "bt", "name": "VH_C03_Legacy", "quick": {"params": {"IN": 2, "OUT": 2, "S": 1}}, "thorough": {"params": {"IN": 3, "OUT": 3, "S": 1}}},
         ],
         "validate_tests": [{"pkg": "bt", "run": "TestVerifRefValidate"}],
         "assumptions": [],
